@@ -17,6 +17,8 @@ NAMES = [
     "alpha", "beta", "gamma", "delta", "eps", "zeta", "eta", "theta", "iota", "kappa",
     "lam", "mu", "nu", "xi", "omicron", "pi_", "rho", "sigma", "tau", "ups", "data_loader",
     "as_numpy", "k2", "dataset_name",
+    # unusual but legal identifiers
+    "_private", "__dunder__", "CamelCase", "UPPER", "x", "na\u00efve", "class_", "a1", "type", "param", "default",
 ]
 # words that never trigger cdd's prose->type inference (no number/whether/path/string/list/of/or/...)
 WORDS = [
@@ -40,8 +42,8 @@ DEFAULT_KINDS = (
 )
 
 
-def rand_doc(r, n=None, trigger=False, multiline=False, stop=None):
-    n = n or r.randint(1, 6)
+def rand_doc(r, n=None, trigger=False, multiline=False, stop=None, long=False):
+    n = n or (r.randint(18, 40) if long else r.randint(1, 6))  # long: wraps under word_wrap (> 80/100 columns)
     words = [r.choice(WORDS) for _ in range(n)]
     if trigger:
         words.insert(r.randint(0, len(words)), r.choice(TRIGGER_PHRASES))
@@ -138,7 +140,7 @@ def make_param(r, tkind, dkind, doc_kind="plain"):
     p = OrderedDict()
     if doc_kind != "none":
         p["doc"] = rand_doc(r, trigger=doc_kind == "trigger", multiline=doc_kind == "multiline",
-                            stop=True if doc_kind == "stop" else None)
+                            stop=True if doc_kind == "stop" else None, long=doc_kind == "long")
     p["typ"] = typ
     d = make_default(r, typ, dkind)
     if d is None:  # kind not applicable to this type: fall back to an applicable one (plain kinds first)
